@@ -456,6 +456,10 @@ let check_request_policy opidx impl_all c (pkt : n list) =
            | [] -> ()) enqs
    | _ -> ())
 
+(* the history step of the model (Proxy.hstep, the function C17_exactly_once is about) is what the driver performs *)
+let hist_step opidx s0 op s1 =
+  spec opidx "C17_history_step" (hstep md5 rx (config ()) s0 op = s1) "Proxy.hstep differs from the driver's own composition"
+
 let op_cpkt opidx impl_all toks =
   match toks with
   | [ _; _; _; _ ] when fs N0 ->
@@ -473,11 +477,11 @@ let op_cpkt opidx impl_all toks =
       check_no_displace opidx impl_all c (bytes_of_hex pkt);
       check_dup opidx impl_all c (int_of_string now) pkt;
       check_request_policy opidx impl_all c (bytes_of_hex pkt);
-      let rq = { rq_created = z_of_int (int_of_string now); rq_refcount = n_of_int 1; rq_buf = Some (bytes_of_hex pkt); rq_replybuf = None;
-                 rq_msg = None; rq_from = Some (nat_of_int c); rq_to = None; rq_origuser = None; rq_rqid = N0;
-                 rq_rqauth = repeat N0 16; rq_newid = N0 } in
+      let s0 = s in
+      let rq = new_request (nat_of_int c) (z_of_int (int_of_string now)) (bytes_of_hex pkt) in
       let s, h = alloc_rq s rq in
       let s, o = radsrv md5 rx (config ()) fs s h (nat_of_int c) (z_of_int (int_of_string now)) (bytes_of_hex rnd) in
+      hist_step opidx s0 (HRecv (nat_of_int c, z_of_int (int_of_string now), bytes_of_hex rnd, bytes_of_hex pkt, fs)) s;
       st := Some s;
       print_outs opidx o ~wake_first:false; flush_misses opidx; print_state opidx s
   | _ -> ()
@@ -536,7 +540,9 @@ let do_reply opidx impl_all s srv now rnd (pkt : n list) =
                | _ -> ()) (impl_events impl_all "reply")
        | None -> ())
    | None -> spec opidx "C04_no_delivery_without_request" (impl_events impl_all "reply" = []) "");
+  let s0 = s in
   let s, o = replyh md5 rx (config ()) fs s (nat_of_int srv) pkt (z_of_int now) rnd in
+  hist_step opidx s0 (HReply (nat_of_int srv, pkt, z_of_int now, rnd, fs)) s;
   st := Some s;
   print_outs opidx o ~wake_first:false; flush_misses opidx; print_state opidx s
 
@@ -636,7 +642,9 @@ let op_wpass opidx impl_all toks =
       List.iter (function [ sv; _; p ] -> check_request_out opidx (int_of_string sv) (bytes_of_hex p) | _ -> ()) (impl_events impl_all "enq");
       let putfail = (rest = [ "putfail" ]) in
       let tick = if rest = [ "tick" ] then z_of_int 1 else Z0 in
+      let s0 = s in
       let s, o = writer_release md5 (config ()) fs (nat_of_int 4) s (nat_of_int (int_of_string srv)) (z_of_int (int_of_string now)) tick (bytes_of_hex rnd) putfail in
+      hist_step opidx s0 (HWriter (nat_of_int (int_of_string srv), z_of_int (int_of_string now), tick, bytes_of_hex rnd, putfail, fs)) s;
       st := Some s;
       print_outs opidx o ~wake_first:true; print_state opidx s
   | _ -> ()
@@ -646,9 +654,9 @@ let op_drain opidx toks =
   | [ c ] ->
       let s = get_state () in
       let c = nat_of_int (int_of_string c) in
-      let cl = get_client s c in
-      let s = set_client s c { cl with c_replyq = [] } in
-      let s = List.fold_left (fun s h -> freerq s h) s cl.c_replyq in
+      let s0 = s in
+      let s = drain_replyq s c in
+      hist_step opidx s0 (HDrain c) s;
       st := Some s; print_state opidx s
   | _ -> ()
 
@@ -689,7 +697,9 @@ let op_cgone opidx toks =
       let s = get_state () in
       if not (Hashtbl.mem gone (int_of_string c)) then begin
         Hashtbl.replace gone (int_of_string c) ();
+        let s0 = s in
         let s = removeclient s (nat_of_int (int_of_string c)) in
+        hist_step opidx s0 (HClientGone (nat_of_int (int_of_string c))) s;
         st := Some s; print_state opidx s
       end
   | _ -> ()
@@ -717,8 +727,9 @@ let op_srvgone opidx toks =
       let i = int_of_string srv in
       if not (Hashtbl.mem gone_srv i) then begin
         let s = get_state () in
-        let rec go s k = if k >= 256 then s else go (freerqoutdata s (nat_of_int i) (n_of_int k)) (k + 1) in
-        let s = go s 0 in
+        let s0 = s in
+        let s = freeserver s (nat_of_int i) in
+        hist_step opidx s0 (HServerGone (nat_of_int i)) s;
         Hashtbl.replace gone_srv i ();
         st := Some s; print_state opidx s
       end
